@@ -9,6 +9,8 @@ from . import c05
 LEVEL = "model_checking"
 
 VARIANTS = [(casing, path, form) for casing in ("CAMEL", "SNAKE") for path in ("dict", "json") for form in ("cls", "inst")]
+# the same documents with every absent field (unselected oneof members included) spelled out as null: null means absent
+NULL_VARIANTS = [(casing, path + "+nulls", form) for casing, path, form in VARIANTS]
 
 
 def rtjson_event(args):
@@ -27,9 +29,17 @@ def rtjson_event(args):
         except Exception as ex:
             ev["dumps"] = type(ex).__name__ + ":" + str(ex)[:60]
             return ev
+        nulls = path.endswith("+nulls")
+        path = path.split("+")[0]
+        if nulls:
+            d = dict(d)
+            for f in schema["types"][ty]:
+                key = cas(dyn.py(f)).rstrip("_")
+                if key not in d:
+                    d[key] = None
         ev["tree"] = jsontree.from_py(d)
         if path == "json":
-            text = m.to_json(casing=cas)
+            text = json.dumps(d) if nulls else m.to_json(casing=cas)
             back = C[ty]().from_json(text) if form == "inst" else C[ty].from_dict(json.loads(text))
         else:
             back = C[ty]().from_dict(d) if form == "inst" else C[ty].from_dict(d)
@@ -45,7 +55,7 @@ def rtjson_event(args):
 
 def run(ctx):
     quick = ctx.tier == "quick"
-    ctx.rule = ("Wide-family values (as C01/C05) x casing {CAMEL, SNAKE} x path {dict, JSON text} x from_dict form {classmethod, instance}: "
+    ctx.rule = ("Wide-family values (as C01/C05) x casing {CAMEL, SNAKE} x path {dict, JSON text} x from_dict form {classmethod, instance} (+ the same documents with every absent field written as null): "
                 "to_dict must be json.dumps-able and denote the value under PJson.tla, the reconstructed message must be observed equal to the "
                 "original value (presence included), == and identical bytes; non-trivial = differs from the fresh message")
     ctx.assumptions = ["as C05"]
@@ -57,6 +67,8 @@ def run(ctx):
         vs = VARIANTS if (not quick or k % 9 == 0) else [VARIANTS[k % 8], VARIANTS[(k * 3 + 1) % 8]]
         for v in vs:
             work.append((c, v))
+        if k % 3 == 0:
+            work.append((c, NULL_VARIANTS[k % 8]))
     for c, v in work:
         ctx.count_case((c["ty"], repr(c["val"]), v), msgev.nontrivial(c))
     events = ctx.pmap(rtjson_event, work)
